@@ -29,7 +29,7 @@ Case(p) ==
    model |-> [err |-> c.err, le |-> Le,
               prog |-> [i \in 1..Len(c.insts) |-> OutInst(c.insts[i])]]]
 Header == [scope |-> Scope, w |-> W, x32bit |-> X32Bit, nsys |-> NSys, events |-> Events,
-           total |-> Len(All)]
+           total |-> Len(All), observes |-> [d \in Decisions |-> KernelObserves(d)]]
 Out == <<Header>> \o [n \in 1..Len(Picked) |-> Case(All[Picked[n]])]
 \* The export runs as the single step of a one-variable behaviour, so that it
 \* is evaluated by a worker thread (whose stack honours -Xss; real-scale
